@@ -12,6 +12,7 @@ import (
 	"strconv"
 	"strings"
 	"sync"
+	"sync/atomic"
 	"time"
 
 	"verif/harness/hk"
@@ -21,10 +22,22 @@ import (
 
 const initBody = `{"jsonrpc":"2.0","id":"init","method":"initialize","params":{"protocolVersion":"2025-03-26","capabilities":{"roots":{"listChanged":true}},"clientInfo":{"name":"raw-peer","version":"1"}}}`
 
+// degraded is set once a wait has hit its ceiling: the run is broken anyway (the miss is reported), later waits are cut
+// short so that a broken tree does not cost minutes.
+var degraded atomic.Bool
+
+func waitCeiling() time.Duration {
+	if degraded.Load() {
+		return 300 * time.Millisecond
+	}
+	return ceiling
+}
+
 func waitUntil(cond func() bool) bool {
-	deadline := time.Now().Add(ceiling)
+	deadline := time.Now().Add(waitCeiling())
 	for !cond() {
 		if time.Now().After(deadline) {
+			degraded.Store(true)
 			return false
 		}
 		time.Sleep(time.Millisecond)
@@ -205,7 +218,7 @@ func (b *book) startRequest(s, m int, call func(ctx context.Context) (*mcp.ListR
 		res, err := call(ctx)
 		w.done <- rootsPayload(res, err, "")
 	}()
-	deadline := time.Now().Add(ceiling)
+	deadline := time.Now().Add(waitCeiling())
 	for {
 		select {
 		case r := <-w.done:
@@ -220,9 +233,10 @@ func (b *book) startRequest(s, m int, call func(ctx context.Context) (*mcp.ListR
 			return fmt.Sprintf("issued:%d", w.id)
 		}
 		if time.Now().After(deadline) {
+			degraded.Store(true)
 			cancel()
 			<-w.done
-			return "err:other:request frame never appeared"
+			return "err:other:request frame never appeared on the addressee's stream"
 		}
 		time.Sleep(200 * time.Microsecond)
 	}
